@@ -33,7 +33,11 @@ ALPHA = ['a', 'A', '1', '-', '_', ' ', '\n', '#', '.', ':', '[', ']', '(', ')', 
 ESC = ['\\0 ', '\\0', '\\d800 ', '\\dfff', '\\10ffff ', '\\110000', '\\110000 ', '\\ffffff', '\\FFFFFF a', '\\1234567', '\\', '\\\n',
        '\\\r\n', '\\g', '\\-', '\\31 23',
        # characters that mean something to Python's own string formatting, reachable in names only through escapes
-       '\\{', '\\}', '\\7b ', '\\7d', '\\{0\\}', '\\{a\\}', '\\{\\}', '\\%s', '\\%', '\\%\\(x\\)s', '\\{0\\[5\\]\\}']
+       '\\{', '\\}', '\\7b ', '\\7d', '\\{0\\}', '\\{a\\}', '\\{\\}', '\\%s', '\\%', '\\%\\(x\\)s', '\\{0\\[5\\]\\}',
+       # what may END a hex escape differs between identifiers and quoted strings (whitespace; a comment is only a comment
+       # between tokens): escape + comment-shaped text, + each whitespace kind, + another escape
+       '\\41/**/', '\\41/*b*/c', '\\00263A/**/', '\\41 /**/', '\\41/*', '\\41/', '\\41*/', '\\41\t/*x*/', '\\41\f', '\\41\r\n\\42',
+       '\\41\\42', '\\41\n', 'a/**/b', '/*\\41*/']
 ALLOWED = {'SelectorSyntaxError', 'NotImplementedError'}
 
 
